@@ -210,6 +210,162 @@ let do_ls line rest =
      | _ -> report line "bad LS line")
   | _ -> report line "bad LS line"
 
+(* ================= INIT stage: the step-length initialisers lsearch0_t and lsearch_t::get (harness/c07_init.cpp) =================
+   One lsearch0 object per I0BEGIN..I0END block. The model state (m_prevf, m_prevdg, and in mode comp also m_last_step_size)
+   is carried by the MODEL from call to call; the recorded t0 of every call must be reproduced bit for bit.
+     mode seq / run : last_step_size is an input of each call (what the wrapper saw), lsearch0_get is replayed;
+     mode comp      : lsearch_get (= lsearch0_get, then ls_get on the recorded probes) is replayed, the model's own
+                      m_last_step_size must equal the one the wrapper saw at the next call (and at I0END). *)
+type i0_pending = { pc_line : string; pc_i : int; pc_last : Float64.t; pc_view : view0; pc_ntrial : int; pc_ftrial : Float64.t;
+                    pc_nj : int; pc_x : Float64.t array; pc_d : Float64.t array; pc_tx : Float64.t array; pc_t0 : Float64.t }
+type i0_ctx = { mutable c_id : string; mutable c_mode : string; mutable c_kind : kind0; mutable c_kindi : int; mutable c_prm0 : params0; mutable c_prm : params;
+                mutable c_alg : int; mutable c_mem : mem0; mutable c_ls : lsmem; mutable c_pending : i0_pending option; mutable c_broken : bool }
+let i0_hist : (string, int) Hashtbl.t = Hashtbl.create 16
+let i0_count k = Hashtbl.replace i0_hist k (1 + (match Hashtbl.find_opt i0_hist k with Some n -> n | None -> 0))
+let i0_calls = ref 0
+let i0_probes = ref 0
+let zero64 = Float64.of_float 0.0
+let dummy_prm0 = { l0_epsilon = zero64; l0_const_t0 = zero64; l0_lin_beta = zero64; l0_lin_alpha = zero64; l0_quad_beta = zero64;
+                   l0_quad_alpha = zero64; l0_cg_phi0 = zero64; l0_cg_phi1 = zero64; l0_cg_phi2 = zero64 }
+let dummy_prm = { c1 = zero64; c2 = zero64; maxit = z_of_int 1; interp = z_of_int 0; safeguard = zero64; tau1 = zero64; tau2 = zero64; tau3 = zero64;
+                  mt_delta = zero64; cg_epsilon = zero64; cg_theta = zero64; cg_gamma = zero64; cg_ro = zero64 }
+let ctx = { c_id = ""; c_mode = ""; c_kind = L0Constant; c_kindi = 0; c_prm0 = dummy_prm0; c_prm = dummy_prm; c_alg = 0;
+            c_mem = mem_init L0Constant; c_ls = lsmem_init L0Constant; c_pending = None; c_broken = false }
+
+let do_i0begin line rest =
+  match split_str " | " rest with
+  | [hd; p0s; cfg] ->
+    let h = Array.of_list (words hd) in
+    let f = Array.of_list (List.map fl (words p0s)) in
+    let c = Array.of_list (words cfg) in
+    let g i = fl c.(i) in
+    let kindi = int_of_string h.(2) in
+    ctx.c_id <- h.(0); ctx.c_mode <- h.(1); ctx.c_kindi <- kindi; ctx.c_kind <- kind0_of_Z (z_of_int kindi);
+    ctx.c_prm0 <- { l0_epsilon = f.(0); l0_const_t0 = f.(1); l0_lin_beta = f.(2); l0_lin_alpha = f.(3); l0_quad_beta = f.(4);
+                    l0_quad_alpha = f.(5); l0_cg_phi0 = f.(6); l0_cg_phi1 = f.(7); l0_cg_phi2 = f.(8) };
+    ctx.c_alg <- int_of_string c.(0);
+    ctx.c_prm <- { c1 = g 3; c2 = g 4; maxit = z_of_int (int_of_string c.(1)); interp = z_of_int (int_of_string c.(2));
+                   safeguard = g 5; tau1 = g 6; tau2 = g 7; tau3 = g 8; mt_delta = g 9; cg_epsilon = g 10; cg_theta = g 11; cg_gamma = g 12; cg_ro = g 13 };
+    ctx.c_mem <- mem_init ctx.c_kind; ctx.c_ls <- lsmem_init ctx.c_kind; ctx.c_pending <- None; ctx.c_broken <- false
+  | _ -> report line "bad I0BEGIN line"
+
+(* checks shared by the three modes once the model's init_res of a call is known *)
+let i0_check_call (pc : i0_pending) (ir : init_res) (last : Float64.t) =
+  incr total; incr i0_calls;
+  let line = pc.pc_line in
+  if not (same ir.ir_t0 pc.pc_t0) then begin
+    ctx.c_broken <- true;
+    report line (Printf.sprintf "lsearch0 model: t0=%s (m_prevf=%s m_prevdg=%s before the call)" (hx ir.ir_t0) (hx ctx.c_mem.m_prevf) (hx ctx.c_mem.m_prevdg))
+  end;
+  if int_of_z ir.ir_evals <> pc.pc_ntrial then report line (Printf.sprintf "lsearch0 model makes %d evaluations, implementation %d" (int_of_z ir.ir_evals) pc.pc_ntrial)
+  else if pc.pc_ntrial = 1 then begin
+    (* the trial point: state.x() + prevt * phi1 * descent, element-wise (translated kernel), bit-equal to the recorded point *)
+    let bad = ref false in
+    for j = 0 to pc.pc_nj - 1 do
+      let e = cg0_trial_coord pc.pc_x.(j) last ctx.c_prm0.l0_cg_phi1 pc.pc_d.(j) in
+      if not (same e pc.pc_tx.(j)) && not !bad then begin bad := true; report line (Printf.sprintf "trial point: model coordinate %s, recorded %s" (hx e) (hx pc.pc_tx.(j))) end
+    done
+  end;
+  (* C07_init_step_in_range on the implementation's own t0: what the line search starts from lies in [stpmin, 1] *)
+  let st = tf (init_step pc.pc_t0) in
+  if not (st >= tf stpmin && st <= 1.0) then propfail line (Printf.sprintf "clamp(t0) = %h outside [stpmin, 1]" st);
+  let t0 = tf pc.pc_t0 in
+  i0_count (Printf.sprintf "kind%d:%s" ctx.c_kindi (if Float.is_nan t0 then "t0=nan" else if t0 = Float.infinity then "t0=+inf" else if t0 = Float.neg_infinity then "t0=-inf"
+                                                    else if t0 < 0.0 then "t0<0" else if t0 = 0.0 then "t0=0" else if t0 < tf stpmin then "0<t0<stpmin"
+                                                    else if t0 <= 1.0 then "stpmin<=t0<=1" else "t0>1"))
+
+let do_i0call line rest =
+  match split_str " = " rest with
+  | [lhs; rhs] ->
+    (match split_str " | " lhs with
+     | [hd; view; tr; coords] ->
+       let h = Array.of_list (words hd) in
+       let v = Array.of_list (words view) in
+       let t = Array.of_list (words tr) in
+       let cs = Array.of_list (words coords) in
+       let nj = int_of_string cs.(0) in
+       let pc = { pc_line = line; pc_i = int_of_string h.(1); pc_last = fl v.(0);
+                  pc_view = { v_p = { pv = (v.(1) = "1"); pf = fl v.(2); pg = fl v.(3) }; v_xinf = fl v.(4); v_ginf = fl v.(5); v_gsq = fl v.(6) };
+                  pc_ntrial = int_of_string t.(0); pc_ftrial = fl t.(1); pc_nj = nj;
+                  pc_x = Array.init nj (fun j -> fl cs.(1 + j)); pc_d = Array.init nj (fun j -> fl cs.(1 + nj + j));
+                  pc_tx = Array.init nj (fun j -> fl cs.(1 + 2 * nj + j)); pc_t0 = fl rhs } in
+       if h.(0) <> ctx.c_id then report line "I0CALL outside its I0BEGIN block"
+       else if ctx.c_mode = "comp" then begin
+         (* the model's own m_last_step_size must be what the wrapper saw *)
+         if not (same ctx.c_ls.lm_last pc.pc_last) && not ctx.c_broken then
+           report line (Printf.sprintf "lsearch_t model: m_last_step_size=%s, the implementation handed %s to lsearch0" (hx ctx.c_ls.lm_last) (hx pc.pc_last));
+         ctx.c_pending <- Some pc
+       end else begin
+         let ir = lsearch0_get ctx.c_prm0 (fun _ -> pc.pc_ftrial) ctx.c_kind ctx.c_mem pc.pc_view pc.pc_last in
+         i0_check_call pc ir pc.pc_last;
+         ctx.c_mem <- ir.ir_mem
+       end
+     | _ -> report line "bad I0CALL line")
+  | _ -> report line "bad I0CALL line"
+
+let do_i0ls line rest =
+  match split_str " = " rest with
+  | [lhs; rhs] ->
+    (match split_str " | " lhs, ctx.c_pending with
+     | [_hd; probes], Some pc ->
+       ctx.c_pending <- None;
+       let nj = pc.pc_nj in
+       let recs =
+         if trim probes = "-" then [||]
+         else Array.of_list (List.map (fun p ->
+             let a = Array.of_list (String.split_on_char ',' p) in
+             ({ pv = (trim a.(0) = "1"); pf = fl a.(1); pg = fl a.(2) }, Array.init nj (fun j -> fl a.(3 + j))))
+             (String.split_on_char ';' (trim probes))) in
+       let n = Array.length recs in
+       let overrun = ref false in
+       let phi k _t =
+         let k = int_of_z k in
+         if k < n then fst recs.(k) else (overrun := true; { pv = false; pf = nanf; pg = nanf }) in
+       (* the recorded last is used when an earlier mismatch already broke the chain (one report per cause) *)
+       let st = if same ctx.c_ls.lm_last pc.pc_last then ctx.c_ls else { lm_mem = ctx.c_ls.lm_mem; lm_last = pc.pc_last } in
+       let (o, st') = lsearch_get ctx.c_kind ctx.c_prm0 ctx.c_prm (alg_of_Z (z_of_int ctx.c_alg))
+           { it_view = pc.pc_view; it_trial = (fun _ -> pc.pc_ftrial); it_phi = phi } st in
+       ctx.c_mem <- st.lm_mem;
+       i0_check_call pc o.io_init st.lm_last;
+       let r = o.io_res in
+       let iok = (trim rhs = "1") in
+       incr total; i0_probes := !i0_probes + n;
+       let tr = Array.of_list (List.rev r.rs.trace) in
+       if same o.io_init.ir_t0 pc.pc_t0 then begin
+         if !overrun || Array.length tr <> n then
+           report line (Printf.sprintf "composed model makes %d probes, implementation %d (t0=%s)" (Array.length tr) n (hx pc.pc_t0))
+         else begin
+           let bad = ref None in
+           Array.iteri (fun k t ->
+               if !bad = None then
+                 for j = 0 to nj - 1 do
+                   let x = tf pc.pc_x.(j) +. tf t *. tf pc.pc_d.(j) in
+                   if not (sameo x (tf (snd recs.(k)).(j))) && !bad = None then bad := Some (k, t)
+                 done) tr;
+           (match !bad with
+            | Some (k, t) -> report line (Printf.sprintf "composed model: probe %d requested at t=%s, x+t*d differs from the recorded point (t0=%s)" k (hx t) (hx pc.pc_t0))
+            | None -> if r.ok <> iok then report line (Printf.sprintf "composed model: ok=%b" r.ok))
+         end;
+         (* C07_composed_evaluations_bounded on the implementation: trial + probes <= 1 + ls_bound *)
+         if ctx.c_alg >= 0 && ctx.c_alg < 5 then begin
+           let b = 1 + eval_bound ctx.c_alg (int_of_z ctx.c_prm.maxit) in
+           if pc.pc_ntrial + n > b then propfail line (Printf.sprintf "composed evaluations-bound: %d > %d" (pc.pc_ntrial + n) b)
+         end;
+         i0_count (if not (has_descent pc.pc_view.v_p) then "comp:refused" else if iok then "comp:ok" else "comp:failed")
+       end;
+       ctx.c_ls <- st'
+     | _ -> report line "I0LS without its I0CALL")
+  | _ -> report line "bad I0LS line"
+
+let do_i0end line rest =
+  (match words rest with
+   | [id; last] when id = ctx.c_id && ctx.c_mode = "comp" && last <> "-" ->
+     incr total;
+     if not (same ctx.c_ls.lm_last (fl last)) && not ctx.c_broken then
+       report line (Printf.sprintf "lsearch_t model: final m_last_step_size=%s" (hx ctx.c_ls.lm_last))
+   | _ -> ());
+  ctx.c_id <- ""
+
 let () =
   (try
      while true do
@@ -224,6 +380,10 @@ let () =
              | "CONST" -> do_const line rest
              | "INTERP" -> do_interp line rest
              | "LS" -> do_ls line rest
+             | "I0BEGIN" -> do_i0begin line rest
+             | "I0CALL" -> do_i0call line rest
+             | "I0LS" -> do_i0ls line rest
+             | "I0END" -> do_i0end line rest
              | _ -> ())
           with Failure m | Invalid_argument m -> report line ("driver cannot parse: " ^ m))
      done
@@ -233,4 +393,9 @@ let () =
       Printf.printf "HIST %s %s\n" h (String.concat " " (List.map (fun (k, n) -> Printf.sprintf "%s=%d" k n) kv))) hist;
   Array.iteri (fun i (r, p, b, mi) -> Printf.printf "EVALB %s max_ratio=%.4f evaluations=%d bound=%d max_iterations=%d\n" alg_names.(i) r p b mi) evb_best;
   Array.iteri (fun i (r, p, b, mi) -> Printf.printf "EVALB %s[max_iterations>=100] max_ratio=%.4f evaluations=%d bound=%d max_iterations=%d\n" alg_names.(i) r p b mi) evb_best100;
+  if !i0_calls > 0 then begin
+    let kv = List.sort compare (Hashtbl.fold (fun k n acc -> (k, n) :: acc) i0_hist []) in
+    Printf.printf "HIST init_t0_classes %s\n" (String.concat " " (List.map (fun (k, n) -> Printf.sprintf "%s=%d" k n) kv));
+    Printf.printf "INIT-DONE calls=%d probes=%d\n" !i0_calls !i0_probes
+  end;
   Printf.printf "MODEL-DONE checked=%d mismatches=%d\n" !total !mism
